@@ -291,6 +291,34 @@ def field_writers(cx, adt, fields, direct=False):
     return out
 
 
+def nested_field_writers(cx, adt, fields):
+    """writes to `fields` of a value of type adt that is reached THROUGH fields of other crate types (e.g. `self.circle.center = ..` in a struct holding
+    a Circle2): {fn: set(dotted paths)}. The path is typed by walking the crate's struct definitions from the root local's type."""
+    out = {}
+
+    def field_ty(ty, name):
+        a = cx.facts.adt(adt_of_type(ty) or '')
+        if not a or len(a['variants']) != 1:
+            return None
+        for f in a['variants'][0]['fields']:
+            if f['name'] == name:
+                return f['ty']
+        return None
+    for b in user_bodies(cx.facts):
+        for m in b.mutations():
+            if not m.path or len(m.path) < 2:
+                continue
+            ty = b.local_ty(m.root) if m.root < len(b.locals) else None
+            for k, nm in enumerate(m.path):
+                if ty is None:
+                    break
+                if k >= 1 and adt_of_type(ty) == adt and nm in fields:
+                    out.setdefault(b.name, set()).add('.'.join(str(x) for x in m.path[:k + 1]))
+                    break
+                ty = field_ty(ty, nm)
+    return out
+
+
 def immutable_after_construction(cx, adt, fields, rule='ENC', allow=()):
     w = field_writers(cx, adt, fields)
     bad = {k: v for k, v in w.items() if not name_match(allow, k)} if allow else w
